@@ -36,10 +36,13 @@ PROP = dict(
 META = dict(
     text="Proof (Lean 4), tours of any length and every position: the quoted cost vector of the evaluator model equals, component by "
          "component, the change of the objective values recomputed from the bare tours for unassigned jobs, number of tours and total "
-         "distance (distance_estimate_exact, distance_estimate_first, quote_exact_distance). Tie: exact differential run — quote, chosen "
+         "distance (distance_estimate_exact, distance_estimate_first, quote_exact_distance), and - for the combined cost objective on a tour that "
+         "already has jobs, when nobody waits in the tour before and after the insertion - for the total cost fixed + distance x per-distance "
+         "+ duration x per-time (noWait, after_noWait, futureWaiting_noWait, leg_estimate_exact for any additive metric, "
+         "cost_estimate_noWait, quote_exact_cost_noWait). Tie: exact differential run — quote, chosen "
          "place/window and the fitness vectors before/after from the real code equal the model's; oracle on the real numbers: realised "
-         "change == quote per additive layer, and for the combined cost objective whenever the tour has no waiting before and after "
-         "(decided on the real numbers, not by a theorem).",
-    note=COMMON_NOTE + " Partial: cost-objective exactness without waiting and maximize-value are not proved (oracle / out of model).",
+         "change == quote per additive layer, and for the combined cost objective whenever the tour has no waiting before and after.",
+    note=COMMON_NOTE + " Partial: with waiting the cost quote is an estimate by design (the property excludes it); cost exactness for the FIRST job of a tour and "
+         "maximize-value are not proved (oracle / out of model).",
     technique="Lean 4 list lemmas (totalDist over append, omega) + exact differential correspondence of quotes and realised fitness changes",
 )
